@@ -19,8 +19,8 @@ namespace nmtools::view
         // needed by decorator_t, also used to deduce underlying array type
         using array_type = nmtools_tuple<condition_type,x_type,y_type>;
         // result type, use common type for now
+        // NOTE: the condition only selects, its element type must not take part in the result type
         using element_type = meta::common_type_t<
-            meta::get_element_type_t<condition_t>,
             meta::get_element_type_t<x_t>, meta::get_element_type_t<y_t>
         >;
 
